@@ -318,15 +318,24 @@ class Model:
         if solver == "auto":
             solver = self._choose_solver()
 
+        if solver not in ("dfs", "sat"):
+            raise ValueError(f"Unknown solver: {solver}. Use 'auto', 'dfs', or 'sat'.")
+
+        result = self._solve_with(solver, hints, solution_limit, **kwargs)
+        if hints and result.status == Status.INFEASIBLE:
+            # Hints only guide the search: a hinted value that cannot be honoured must not
+            # turn a satisfiable model into INFEASIBLE, so solve again without them
+            result = self._solve_with(solver, None, solution_limit, **kwargs)
+        return result
+
+    def _solve_with(self, solver: str, hints: dict[str, int] | None, solution_limit: int, **kwargs: Any) -> Result:
         if solver == "dfs":
             return self._solve_dfs(hints=hints, solution_limit=solution_limit, **kwargs)
-        elif solver == "sat":
-            from solvor.cp_encoder import SATEncoder
 
-            encoder = SATEncoder(self)
-            return encoder.solve(hints=hints, solution_limit=solution_limit, **kwargs)
-        else:
-            raise ValueError(f"Unknown solver: {solver}. Use 'auto', 'dfs', or 'sat'.")
+        from solvor.cp_encoder import SATEncoder
+
+        encoder = SATEncoder(self)
+        return encoder.solve(hints=hints, solution_limit=solution_limit, **kwargs)
 
     def _solve_dfs(self, *, hints: dict[str, int] | None = None, solution_limit: int = 1, **kwargs):
         """DFS backtracking solver with constraint propagation.
